@@ -25,7 +25,7 @@ from .registry import Job, register
 from .summaries import SUMMARIES
 
 FM = "unit_scaling.formats."
-QUICK_FORMATS = [(4, 3), (5, 2), (2, 1), (3, 0), (5, 10), (8, 23), (8, 7), (4, 23)]
+QUICK_FORMATS = [(4, 3), (5, 2), (2, 1), (3, 0), (5, 10), (8, 23), (8, 7), (4, 23), (8, 0)]
 ALL_FORMATS = [(E, M) for E in range(2, 9) for M in range(0, 24)]
 
 
@@ -35,11 +35,14 @@ def s_max_absolute_value(interp: Any, b: Dict[str, Any]) -> Any:
     return fmt_consts(f.attrs["exponent_bits"], f.attrs["mantissa_bits"])["max"]
 
 
-BIT_SUMMARIES = {FM + "FPFormat.max_absolute_value": s_max_absolute_value}
+# max_absolute_value is INLINED into quantise (not summarised): whether it returns a Python int or
+# a float matters to its caller (torch.clip converts an int bound to a C int64: E8M0), and the
+# annotation `-> float` is not enforced by Python.  Its own contract is checked by the range jobs.
+BIT_SUMMARIES: Dict[str, Any] = {}
 
 
 def mk_bit_interp(ctx: Ctx, verifying: List[str]) -> Interp:
-    return Interp(ctx, contracts=dict(BIT_SUMMARIES), inline=[FM + "FPFormat.__post_init__"], verifying=verifying, externals=bm.externals)
+    return Interp(ctx, contracts=dict(BIT_SUMMARIES), inline=[FM + "FPFormat.__post_init__", FM + "FPFormat.max_absolute_value"], verifying=verifying, externals=bm.externals)
 
 
 def mk_format(it: Interp, E: int, M: int, rounding: str, srbits: int = 0) -> Any:
@@ -167,7 +170,7 @@ for _E, _M in ALL_FORMATS:
 def _fits(E: int, M: int, dtype: str) -> bool:
     """is every value of the format exactly a value of dtype?"""
     c = fmt_consts(E, M)
-    sb, emin_d, emax_d = {"bfloat16": (8, -126, 127), "float16": (11, -14, 15), "float64": (53, -1022, 1023)}[dtype]
+    sb, emin_d, emax_d = {"bfloat16": (8, -126, 127), "float16": (11, -14, 15), "float64": (53, -1022, 1023), "float32": (24, -126, 127)}[dtype]
     return M + 1 <= sb and c["emax"] <= emax_d and c["emin"] - M >= emin_d - (sb - 1)
 
 
@@ -228,10 +231,10 @@ def _dtype_job(E: int, M: int, dtype: str, rank: int) -> Callable[[], Record]:
 
 
 for _E, _M in ALL_FORMATS:
-    for _dt in ("float64", "bfloat16", "float16"):
-        if _dt != "float64" and not _fits(_E, _M, _dt):
+    for _dt in ("float64", "bfloat16", "float16", "float32"):
+        if _dt not in ("float64", "float32") and not _fits(_E, _M, _dt):
             continue
-        for _rank in (1, 2):
+        for _rank in (0, 1, 2):
             register(Job(f"c13:quantise-dtype[E{_E}M{_M},{_dt},rank={_rank}]", ["C13"], FM + "FPFormat.quantise", {"E": _E, "M": _M, "dtype": _dt, "rank": _rank}, _dtype_job(_E, _M, _dt, _rank), tier="quick" if (_E, _M) in QUICK_FORMATS[:3] else "thorough"))
 
 
